@@ -402,6 +402,8 @@ def judge(sp, cfg, res, want=None):
                 if c > 0:
                     add("C16", "args_out_of_order", "'%s': argument '%s' is shown before '%s' under sort=%s%s" % (
                         "::".join(p.path()), renders[a], renders[b], ["kind", "name", "location"][it.sort_attr], " (reversed)" if it.sort_rev else ""))
+                    add("C20", "not_in_sorted_order", "'%s': argument row '%s' is printed before '%s' (sort=%s%s)" % (
+                        "::".join(p.path()), renders[a], renders[b], ["kind", "name", "location"][it.sort_attr], " reversed" if it.sort_rev else ""))
                     break
             continue
         obs["sibling_sets"] += 1
@@ -412,6 +414,10 @@ def judge(sp, cfg, res, want=None):
             if c > 0:
                 add("C16", "siblings_out_of_order" + same_position_suffix(ma, mb), "under '%s': '%s' is shown before '%s' under sort=%s%s" % (
                     "::".join(p.path()), pa.name, pb.name, ["kind", "name", "location"][it.sort_attr], " (reversed)" if it.sort_rev else ""))
+                if not same_position_suffix(ma, mb):
+                    # (entries sharing one source position are C16's open finding, keyed there)
+                    add("C20", "not_in_sorted_order", "under '%s': '%s' is printed before '%s' (sort=%s%s)" % (
+                        "::".join(p.path()), pa.name, pb.name, ["kind", "name", "location"][it.sort_attr], " reversed" if it.sort_rev else ""))
                 break
     # top level
     if len(proots) > 1:
